@@ -330,7 +330,16 @@ func main() {
 		defer os.RemoveAll(scratch)
 	}
 	astool := filepath.Join(scratch, "astool.bin")
-	if out, err := sh(repo, nil, "go", "build", "-o", astool, "./astool"); err != nil {
+	buildArgs := []string{"build", "-o", astool}
+	if cov := os.Getenv("VERIF_COVER"); cov != "" {
+		// development aid (tools/reach.sh): block coverage of the generator
+		buildArgs = append(buildArgs, "-cover", "-coverpkg=github.com/go-fed/activity/astool/...")
+		cov = filepath.Join(cov, "astool")
+		os.MkdirAll(cov, 0755)
+		os.Setenv("GOCOVERDIR", cov)
+	}
+	buildArgs = append(buildArgs, "./astool")
+	if out, err := sh(repo, nil, "go", buildArgs...); err != nil {
 		fmt.Println(out)
 		r.Inconclusive("astool does not build: " + err.Error())
 		os.Exit(r.Finish())
